@@ -15,7 +15,7 @@ from ..rules import norm
 META = {
     "level": "other",
     "technique": "wire-signature abstract interpretation of typed HIR (reader vs writer, all versions of the finite version domain) + computed record widths vs bookkeeping constants",
-    "claim": "Decides layout agreement (width, order, int/float kind, named field order, version thresholds) for every linear parse/write pair of wow-m2 at every version threshold, and that the per-record size constants in M2Model::write equal the widths of the writers they describe. Seek-driven top-level readers (M2Model, SkinG, AnimSection…) are listed unarmed. Does not compare values, floats or relocated key-frame blobs. Also: relocation cursors advance only on new mappings and every written blob is mapped; conversion paths reach the target for all index pairs; tracks are skipped only when fully empty; header references are reset when a section is empty; layout advances equal element writer widths; no struct size_of in writers; the .anim entry size inverts to the bone count. Wave 5: enumerate() indices used as positions count every element; the bone-index validity test equals index >= bone_count for all bytes x 13 skeleton sizes; embedded-skin element widths agree across reader / writer / extractor; no end-position compared with itself; pre-allocation caps bound only the allocation. Wave 6: AnimEntry offsets derive from captured stream positions only; the submesh record width is version-indexed consistently by writer and counter.",
+    "claim": "Decides layout agreement (width, order, int/float kind, named field order, version thresholds) for every linear parse/write pair of wow-m2 at every version threshold, and that the per-record size constants in M2Model::write equal the widths of the writers they describe. Seek-driven top-level readers (M2Model, SkinG, AnimSection…) are listed unarmed. Does not compare values, floats or relocated key-frame blobs. Also: relocation cursors advance only on new mappings and every written blob is mapped; conversion paths reach the target for all index pairs; tracks are skipped only when fully empty; header references are reset when a section is empty; layout advances equal element writer widths; no struct size_of in writers; the .anim entry size inverts to the bone count. Wave 5: enumerate() indices used as positions count every element; the bone-index validity test equals index >= bone_count for all bytes x 13 skeleton sizes; embedded-skin element widths agree across reader / writer / extractor; no end-position compared with itself; pre-allocation caps bound only the allocation. Wave 6: AnimEntry offsets derive from captured stream positions only; the submesh record width is version-indexed consistently by writer and counter. Wave 8: emptiness guards name what their block writes (37 guards); the header size counts the header as written.",
     "note": "Trusted: the primitive tables (ReadExt/WriteExt read_*/write_* names carry their width; to_le_bytes width from the operand type). Conditions other than version comparisons are matched as unordered alternatives.",
     "assumptions": ["a record's wire layout is determined by its own parse/write body plus its sub-records' bodies"],
     "explanation": "All wow_m2 types with parse/read and write methods (≈73), M2Model::write's *_size constants (animation, bone, vertex, texture, submesh, material) and calculate_header_size vs M2Header::write.",
